@@ -62,6 +62,9 @@ POOL = [
     part("BYMONTH", ("m", 5, 0), ("m", 5, 1)), part("BYMONTH", ("m", 4, 1), ("m", 4, 0), ("m", 12, 0)),
     part("BYDAY", W("MO"), W("MO")), part("BYDAY", W("1MO"), W("MO"), W("+1MO")), part("BYHOUR", I(9), I(9)), part("BYMONTHDAY", I(1), I(-1), I(1)),
     part("BYSETPOS", I(0)), part("COUNT", I(0)),
+    # limits of the RFC ranges: BYSECOND 0..60, BYMINUTE 0..59, BYHOUR 0..23, BYMONTHDAY +-31, BYYEARDAY +-366, BYWEEKNO +-53
+    part("BYSECOND", I(60)), part("BYSECOND", I(59), I(60)), part("BYMINUTE", I(59)), part("BYHOUR", I(23), I(0)), part("BYMONTHDAY", I(31), I(-31)),
+    part("BYYEARDAY", I(366), I(-366)), part("BYWEEKNO", I(53), I(-53)), part("BYSETPOS", I(366), I(-366)),
 ]
 
 
@@ -240,6 +243,9 @@ def expand_text(text, dtstart):
 
 
 def observe(rule, rnd, with_occ):
+    # parts at the limits of their ranges (BYSECOND=60, BYSETPOS=+-366 ...) are beyond what the expander handles in reasonable time
+    if any(S(n) in ("BYSECOND", "BYSETPOS", "BYYEARDAY", "BYWEEKNO") and any(v[0] == "i" and v[2] >= 53 for v in vals) for n, vals in rule):
+        with_occ = False
     try:
         r = build(rule, rnd)
         text = r.to_ical().decode()
@@ -261,6 +267,32 @@ def observe(rule, rnd, with_occ):
                 absent in obj
         if r.to_ical().decode() != text:
             e["text"] = L(r.to_ical().decode())          # judged by TLC against the supplied parts
+        # encode -> edit a value list in place / pop a part -> encode: the text follows the rule as it now stands
+        r2 = vRecur.from_ical(text)
+        r2.to_ical()
+        edited = False
+        for k_ in list(r2.keys()):
+            if k_ not in ("FREQ",) and isinstance(r2[k_], list) and r2[k_]:
+                r2[k_].append(r2[k_][0])
+                edited = k_
+                break
+        if edited:
+            fresh = vRecur.from_ical(text)
+            fresh[edited].append(fresh[edited][0])
+            if r2.to_ical() != fresh.to_ical():
+                e["again"] = L("STALE-AFTER-EDIT:") + L(r2.to_ical())      # the re-encoding clause of the trace spec then fails
+                e["stale_after_edit"] = edited
+        r3 = vRecur.from_ical(text)
+        r3.to_ical()
+        for k_ in list(r3.keys()):
+            if k_ != "FREQ":
+                r3.pop(k_)
+                fresh = vRecur.from_ical(text)
+                del fresh[k_]
+                if r3.to_ical() != fresh.to_ical():
+                    e["again"] = L("STALE-AFTER-POP:") + L(r3.to_ical())
+                    e["stale_after_edit"] = "pop " + k_
+                break
         e["back"] = alpha_rule(back)
         e["again"] = L(back.to_ical())
     except Exception as x:   # noqa: BLE001
